@@ -30,7 +30,9 @@ func interesting(s ast.Stmt) bool {
 	switch s.(type) {
 	case *ast.GoStmt, *ast.SelectStmt, *ast.SendStmt:
 		return true
-	case *ast.DeferStmt, *ast.BlockStmt, *ast.IfStmt, *ast.ForStmt, *ast.RangeStmt, *ast.SwitchStmt, *ast.TypeSwitchStmt, *ast.LabeledStmt:
+	case *ast.DeferStmt, *ast.BlockStmt, *ast.IfStmt, *ast.ForStmt, *ast.RangeStmt, *ast.SwitchStmt, *ast.TypeSwitchStmt, *ast.LabeledStmt,
+		*ast.CommClause, *ast.CaseClause:
+		// clauses are the elements of a select / switch body; their own bodies are rewritten separately
 		return false
 	}
 	found := false
@@ -65,7 +67,7 @@ func interesting(s ast.Stmt) bool {
 
 func rewriteList(list []ast.Stmt, count *int) []ast.Stmt {
 	var out []ast.Stmt
-	for _, s := range list {
+	for i, s := range list {
 		if interesting(s) {
 			out = append(out, yieldStmt())
 			*count++
@@ -73,8 +75,12 @@ func rewriteList(list []ast.Stmt, count *int) []ast.Stmt {
 			switch s.(type) {
 			case *ast.ReturnStmt, *ast.BranchStmt:
 			default:
-				out = append(out, yieldStmt())
-				*count++
+				// no yield after the last statement of a block: it may be a terminating statement
+				// (a select whose cases all return, ...) and a statement after it would break the build
+				if i < len(list)-1 {
+					out = append(out, yieldStmt())
+					*count++
+				}
 			}
 		} else {
 			out = append(out, s)
@@ -158,8 +164,9 @@ func main() {
 	for _, p := range os.Args[1:] {
 		n, err := process(p)
 		if err != nil {
-			fmt.Fprintf(os.Stderr, "yieldify: %s: %v\n", p, err)
-			os.Exit(1)
+			// leave the file as it is: an un-instrumented file is still a correct build
+			fmt.Printf("yieldify: WARNING %s left un-instrumented: %v\n", p, err)
+			continue
 		}
 		fmt.Printf("yieldify: %s: %d yield points\n", p, n)
 		total += n
